@@ -741,7 +741,7 @@ def tail_steps(rng, gen, c2m):
 
 
 def gen_history(rng, mirs, cs, kind=None):
-    kind = kind or rng.choice(["mir", "mir", "c", "c", "c", "api", "api", "cmisc", "cerr", "lrefmod", "tiered", "jcallmod", "movectx", "reload", "c2mopts"])
+    kind = kind or rng.choice(["mir", "mir", "c", "c", "c", "api", "api", "cmisc", "cerr", "lrefmod", "tiered", "jcallmod", "movectx", "reload", "c2mopts", "switchmod", "cdecl"])
     iface = rng.choice(IFACES)
     level = rng.below(4)
     link = f"link:{iface}@{level}"
@@ -806,9 +806,28 @@ def gen_history(rng, mirs, cs, kind=None):
             s.append(f"genall:{rng.below(2)}")
         return {"kind": kind, "input": "generated lref module", "iface": iface, "level": level,
                 "files": {"lref.mir": gen_lref_module(rng)}, "steps": s + tail_steps(rng, iface != "interp", False)}
+    if kind == "switchmod":
+        txt, n, mem = gen_switch_module(rng)
+        iface = rng.choice(["gen", "gen", "lazy", "lazybb", "interp"])
+        lv = rng.choice([2, 2, 3, 0, 1])
+        s += ["scan:$WORK/switch.mir", "load", f"link:{iface}@{lv}"] + [f"{'run2' if mem else 'run'}:f@{i}" for i in range(n)]
+        return {"kind": kind, "input": "generated switch module", "iface": iface, "level": lv, "asan_build": rng.chance(1, 2),
+                "files": {"switch.mir": txt}, "steps": s + tail_steps(rng, iface != "interp", False)}
+    if kind == "cdecl":
+        if rng.chance(1, 4):
+            s.append("c2m:" + os.path.join(VERIF, "corpus", "C17", "incomplete_decl.c"))
+            files = None
+        else:
+            s.append("c2m:$WORK/incomplete.c")
+            files = {"incomplete.c": gen_incomplete_c(rng)}
+        s += ["load", link, "run"]
+        return {"kind": kind, "input": "incomplete-type declarations", "iface": iface, "level": level, "files": files,
+                "steps": s + tail_steps(rng, gen, True)}
     if kind == "reload":
         # MIR_load_module of the same module more than once: before the link, after it, twice in a row
         lv = rng.below(4)
+        if iface == "lazybb":          # after lazy-bb generation the insns stay in generator form: a reload cannot re-simplify them
+            iface = "lazy"
         lk = f"link:{iface}@{lv}"
         s.append("scan:$WORK/sections.mir")
         pat = rng.choice([["load", lk, "run:sum", "load", lk, "run:sum"], ["load", "load", lk, "run:sum"],
@@ -1075,6 +1094,65 @@ def gen_sections_module(rng):
     return "\n".join(L)
 
 
+def gen_switch_module(rng):
+    """SWITCH programs: case bodies that are live, dead-code-only (fall through) or label-only; the LAST
+    switch label may be such an empty/dead block entered only from the switch; labels shared by cases"""
+    n = 2 + rng.below(5)
+    mem = rng.chance(2, 3)         # case bodies store through a pointer argument and the result is a constant
+    L = ["ms: module", "export f", "f: func i64, i64:a" + (", p:out" if mem else ""), "   local i64:t, i64:r, i64:u", "   mov r, 7"]
+    labels = [f"L{i}" for i in range(n)]
+    tgt = list(labels)
+    if n > 2 and rng.chance(1, 3):
+        tgt[rng.below(n - 1)] = labels[rng.below(n)]          # two cases share a label
+    L.append("   switch a, " + ", ".join(tgt))
+    for i, lab in enumerate(labels):
+        L.append(f"{lab}:")
+        last = i == n - 1
+        kind = rng.choice(["dead", "empty", "dead2"]) if (last and rng.chance(3, 4)) else rng.choice(["live", "live", "live", "dead", "empty"])
+        if kind == "live":
+            L += [f"   mov i64:(out), {10 * (i + 1)}" if mem else f"   mov r, {10 * (i + 1)}", "   jmp Lend"]
+        elif kind == "dead":
+            L.append(f"   mov t, {5 + i}")
+        elif kind == "dead2":
+            L += [f"   mov t, {5 + i}", "   add u, t, 1"]
+    L += ["Lend:", "   ret 0" if mem else "   ret r", "   endfunc", "   endmodule", ""]
+    return "\n".join(L), n, mem
+
+
+def gen_incomplete_c(rng):
+    """C translation unit in which objects are first declared with an incomplete type and completed later
+    (c2mir: symbol_def_replace -> HTAB_DO (…, HTAB_REPLACE) on the symbol table, which has a free function)"""
+    decl, compl, use, total = [], [], [], 0
+    k = 1 + rng.below(4)
+    for i in range(k):
+        form = rng.below(4)
+        if form == 0:
+            m = 2 + rng.below(4)
+            decl.append(f"extern int a{i}[];")
+            compl.append(f"int a{i}[{m}] = {{{', '.join(str(j + 1) for j in range(m))}}};")
+            use.append(f"a{i}[1]")
+            total += 2
+        elif form == 1:
+            decl += [f"struct S{i};", f"extern struct S{i} s{i};"]
+            compl += [f"struct S{i} {{ int x, y; }};", f"struct S{i} s{i} = {{4, {5 + i}}};"]
+            use.append(f"s{i}.y")
+            total += 5 + i
+        elif form == 2:
+            decl += [f"union U{i};", f"extern union U{i} u{i};"]
+            compl += [f"union U{i} {{ long l; char c[8]; }};", f"union U{i} u{i} = {{{6 + i}}};"]
+            use.append(f"(int) u{i}.l")
+            total += 6 + i
+        else:
+            decl.append(f"extern char c{i}[];")
+            compl += [f"char c{i}[] = \"xyz\";", f"extern char c{i}[4];"]
+            use.append(f"(c{i}[1] - 'y')")
+    if rng.chance(1, 2):
+        decl, compl = decl + compl[:1], compl[1:] + []      # interleave a little
+    body = "\n".join(["/* generated: incomplete-type declarations completed later */"] + decl + compl +
+                      [f"int main (void) {{ return {' + '.join(use)} - {total}; }}", ""])
+    return body
+
+
 def report_history(r, sig, what, detail):
     h = r["h"]
     if sig.startswith("C17:leak:") and sum(1 for x in h["steps"] if x == "load") > 1:
@@ -1230,6 +1308,16 @@ if EXE is not None and os.path.exists(DRV):
         hs[-1]["level"] = i % 4
     for i in range(8 if QUICK else 60):
         hs.append(gen_history(ck.rng, mirs, cs, "reload"))
+    for i in range(10 if QUICK else 80):
+        h2 = gen_history(ck.rng, mirs, cs, "switchmod")
+        if i < 6:                          # -O2/-O3 generation always, under both flavours
+            h2["steps"] = [re.sub(r"^link:\w+@\d", f"link:{['gen', 'lazy', 'gen'][i % 3]}@{2 + i % 2}", x) for x in h2["steps"]]
+            if "genfinish" not in h2["steps"]:
+                h2["steps"].insert(h2["steps"].index("finish"), "genfinish")
+            h2["iface"], h2["level"], h2["asan_build"] = ['gen', 'lazy', 'gen'][i % 3], 2 + i % 2, i % 2 == 0
+        hs.append(h2)
+    for i in range(6 if QUICK else 40):
+        hs.append(gen_history(ck.rng, mirs, cs, "cdecl"))
     for i, ni in enumerate([64, 64, 63, 65, 128, 129] if QUICK else [64, 64, 63, 65, 127, 128, 129, 1, 2, 64] * 4):
         h2 = gen_history(ck.rng, mirs, cs, "c2mopts")
         h2["steps"] = [re.sub(r"@I\d+", f"@I{ni}", x, count=1) if x.startswith("c2m:") and "@E" not in x else x for x in h2["steps"]]
